@@ -292,7 +292,8 @@ class Verdict:
         return True
 
     def finish(self):
-        os.makedirs(EVID, exist_ok=True)
+        evid = EVID if not self.pid.startswith("X") else os.path.join(VERIF, "evidence_extra")   # extras are not listed properties
+        os.makedirs(evid, exist_ok=True)
         wall = time.time() - self.t0
         for key, what in self.known_seen:
             print("KNOWN-FINDING: property=%s %s" % (self.pid, what))
@@ -306,7 +307,7 @@ class Verdict:
             "coverage": self.coverage, "assumptions": self.assumptions,
             "wall_s": round(wall, 2), "violations": len(self.violations),
         }
-        with open(os.path.join(EVID, self.pid + ".json"), "w") as f:
+        with open(os.path.join(evid, self.pid + ".json"), "w") as f:
             json.dump(ev, f, indent=1, default=str)
         if self.violations:
             os.makedirs(REPLAY, exist_ok=True)
